@@ -258,6 +258,8 @@ def short_write_sites(body):
 
 # ---- cross-property dependencies --------------------------------------------------------------------------------------------
 _SUB = {}
+_ACTIVE = []          # properties whose rules are being evaluated right now (outermost first)
+_CYCLE_SKIPS = [0]
 
 
 def subordinate(F, pid, tier):
@@ -266,7 +268,12 @@ def subordinate(F, pid, tier):
         return _SUB[pid]
     mod = importlib.import_module(pid.lower())
     sub = Reporter(pid, tier)
-    mod.run(F, sub, tier)
+    _ACTIVE.append(pid)
+    skips0 = _CYCLE_SKIPS[0]
+    try:
+        mod.run(F, sub, tier)
+    finally:
+        _ACTIVE.pop()
     known = set()
     kf = os.path.join(VERIF, "known_findings.json")
     if os.path.exists(kf):
@@ -274,21 +281,35 @@ def subordinate(F, pid, tier):
             if f["property"] == pid:
                 known.add(f["key"])
     res = {r.rid: [k for k, _, _ in r.fails if k not in known] for r in sub.rules}
-    _SUB[pid] = res
+    if _CYCLE_SKIPS[0] == skips0:
+        _SUB[pid] = res          # (a result computed with a dependency cut at a cycle is valid only inside that cycle: not cached)
     return res
 
 
-
-
 def depends_on(rule, F, tier, deps, what):
-    """`what` (a clause of this property) is established by rule instances of other properties: run them, require that they hold."""
-    for rid in deps:
-        res = subordinate(F, rid.split("-")[0], tier)
-        rule.site("%s ⇐ %s" % (what, rid))
-        if rid not in res:
-            rule.fail(("depends", rid, "missing"), "%s relies on %s, which did not run" % (what, rid))
-        elif res[rid]:
-            rule.fail(("depends", rid), "%s relies on %s, which reported %s" % (what, rid, res[rid][0]))
+    """`what` (a clause of this property) is established by rule instances of other properties: run them, require that they hold.
+    Properties may depend on each other (C03 ⇐ C07-R2/R3 and C07 ⇐ C03-R3): a dependency on a property that is itself being evaluated
+    further out is not followed again — that outer evaluation decides it, and reports it under its own id."""
+    me = rule.rid.split("-")[0]
+    pushed = False
+    if not _ACTIVE:
+        _ACTIVE.append(me)
+        pushed = True
+    try:
+        for rid in deps:
+            dp = rid.split("-")[0]
+            rule.site("%s ⇐ %s" % (what, rid))
+            if dp in _ACTIVE and dp != me:
+                _CYCLE_SKIPS[0] += 1
+                continue
+            res = subordinate(F, dp, tier)
+            if rid not in res:
+                rule.fail(("depends", rid, "missing"), "%s relies on %s, which did not run" % (what, rid))
+            elif res[rid]:
+                rule.fail(("depends", rid), "%s relies on %s, which reported %s" % (what, rid, res[rid][0]))
+    finally:
+        if pushed:
+            _ACTIVE.pop()
 
 
 def with_helpers(F, fn, depth=2):
